@@ -67,3 +67,95 @@ func bocSerialize(roots ...*hcell) []byte {
 	}
 	return append(out, data...)
 }
+
+// bocCellDescriptors returns the offsets of the two descriptor bytes of every cell of a serialized bag of
+// cells (generic "b5ee9c72" container), found by walking the cell data the way the format describes it.
+// ok is false when the container does not parse far enough.
+func bocCellDescriptors(b []byte) (offs []int, refSize int, ok bool) {
+	if len(b) < 6 || b[0] != 0xb5 || b[1] != 0xee || b[2] != 0x9c || b[3] != 0x72 {
+		return nil, 0, false
+	}
+	flags := b[4]
+	size := int(flags & 7)
+	hasIdx := flags&0x80 != 0
+	offBytes := int(b[5])
+	p := 6
+	rd := func(n int) int {
+		v := 0
+		for i := 0; i < n && p < len(b); i++ {
+			v = v<<8 | int(b[p])
+			p++
+		}
+		return v
+	}
+	if size == 0 || size > 4 || offBytes == 0 || offBytes > 8 {
+		return nil, 0, false
+	}
+	cells := rd(size)
+	roots := rd(size)
+	rd(size)
+	rd(offBytes)
+	p += roots * size
+	if hasIdx {
+		p += cells * offBytes
+	}
+	for i := 0; i < cells && p+2 <= len(b); i++ {
+		offs = append(offs, p)
+		d1, d2 := b[p], b[p+1]
+		refs := int(d1 & 7)
+		data := int(d2>>1) + int(d2&1)
+		skip := 0
+		if d1&16 != 0 { // stored hashes and depths
+			lvl := 0
+			for m := d1 >> 5; m != 0; m >>= 1 {
+				lvl += int(m & 1)
+			}
+			skip = (lvl + 1) * 34
+		}
+		p += 2 + skip + data + refs*size
+	}
+	return offs, size, len(offs) > 0
+}
+
+// bocMutateDescriptor corrupts one cell of a container at the descriptor level: level mask, exotic flag,
+// reference count, data length or exotic type byte. Exotic cells are preferred when pick is odd.
+func bocMutateDescriptor(b []byte, pick, what, val int) []byte {
+	offs, _, ok := bocCellDescriptors(b)
+	if !ok {
+		return b
+	}
+	out := append([]byte{}, b...)
+	var exotic []int
+	for _, o := range offs {
+		if out[o]&8 != 0 {
+			exotic = append(exotic, o)
+		}
+	}
+	o := offs[pick%len(offs)]
+	if pick%2 == 1 && len(exotic) > 0 {
+		o = exotic[(pick/2)%len(exotic)]
+	}
+	switch what % 7 {
+	case 6: // turn the cell into a pruned-branch stub whose level mask promises more stored hashes than its data holds
+		if out[o+1] >= 4 && o+3 < len(out) { // at least two data bytes
+			out[o] = out[o]&7 | 8 | byte(1+val%7)<<5
+			out[o+2] = 1
+			out[o+3] = byte(1 + val%7)
+		}
+	case 0: // level mask bits
+		out[o] = out[o]&0x1f | byte(val&7)<<5
+	case 1: // exotic flag
+		out[o] ^= 8
+	case 2: // reference count
+		out[o] = out[o]&0xf8 | byte(val&7)
+	case 3: // data length
+		out[o+1] = byte(val)
+	case 4: // first data byte (exotic type for exotic cells)
+		if o+2 < len(out) {
+			out[o+2] = byte(val % 6)
+		}
+	case 5: // "with hashes" flag
+		out[o] ^= 16
+	}
+	return out
+}
